@@ -152,7 +152,9 @@ def extra_checks(bdir, model, rng, tier, stats):
         if 'crash' in r:
             txt = r.get('stderr', '')
             kind = 'AddressSanitizer' if 'AddressSanitizer' in txt else ('UndefinedBehaviorSanitizer' if 'runtime error' in txt else 'process death (rc %s)' % r.get('returncode'))
-            out.append(('%s in kernel %s on (norb,na,nb)=(%d,%d,%d): %s' % (kind, c['op'], c['norb'], c['na'], c['nb'], txt[-700:].replace('\n', ' | ')),
+            key = [ln.strip() for ln in txt.splitlines() if 'runtime error' in ln or 'ERROR: AddressSanitizer' in ln or 'Assertion' in ln]
+            head = (key[0][:300] + ' || ') if key else ''
+            out.append(('%s in kernel %s on (norb,na,nb)=(%d,%d,%d): %s%s' % (kind, c['op'], c['norb'], c['na'], c['nb'], head, txt[-300:].replace('\n', ' | ')),
                         {'property': PID, 'case': c, 'report': txt, 'how': 'sanitizer build of libfqe.so, LD_PRELOAD=libasan:libubsan'}, None))
             nrep += 1
             if nrep >= 4:
